@@ -245,12 +245,75 @@ pub fn differential(tree: &Tree, in_scope: &[String], pair: &Pair, out: &mut Vec
     all_ins
 }
 
+/// The ID-range-exhaustion regime (behaviour owned by C01): the highest existing
+/// reference plus the number of missing ones reaches u32::MAX, so a correct
+/// edit run fails instead of inserting. Other properties exclude such trees
+/// by construction and count them.
+pub fn exhaustion_regime(max_existing: Option<u32>, missing: usize) -> bool
+{
+    match max_existing
+    {
+        Some(m) => missing > 0 && (m as u64 + missing as u64) >= u32::MAX as u64,
+        None => false,
+    }
+}
+
+pub fn exhaustion_regime_model(rendered: &[(String, Rendered)]) -> bool
+{
+    let mut max_e: Option<u32> = None;
+    let mut missing = 0;
+    for (_, r) in rendered
+    {
+        for s in &r.stmts
+        {
+            match &s.expect
+            {
+                crate::gen::Expect::HasRef(n) => max_e = Some(max_e.map(|m| m.max(*n)).unwrap_or(*n)),
+                crate::gen::Expect::Missing { .. } => missing += 1,
+                _ => (),
+            }
+        }
+    }
+    exhaustion_regime(max_e, missing)
+}
+
+/// Same, for arbitrary contents, using what the parser recognises.
+pub fn exhaustion_regime_raw(files: &[(String, Vec<u8>)], cfg: &ConfigSpec) -> bool
+{
+    let mut max_e: Option<u32> = None;
+    let mut missing = 0;
+    for (_, b) in files
+    {
+        if let Ok(t) = std::str::from_utf8(b)
+        {
+            if let Ok(entries) = crate::hook::find(t, cfg.is_structured(), &cfg.macro_pairs())
+            {
+                for e in entries
+                {
+                    match e.reference
+                    {
+                        Some(n) => max_e = Some(max_e.map(|m| m.max(n)).unwrap_or(n)),
+                        None if e.usable => missing += 1,
+                        None => (),
+                    }
+                }
+            }
+        }
+    }
+    exhaustion_regime(max_e, missing)
+}
+
 /// Model-based CLI check of a modelled tree (C10/C11/C13/C14 at CLI level):
 /// check report and edit result are both compared with the model.
 pub fn model_cli(mt: &ModelTree) -> (CaseOutcome, Vec<(String, Rendered)>, Option<Pair>)
 {
     let mut o = CaseOutcome::default();
     let (tree, rendered) = mt.render();
+    if exhaustion_regime_model(&rendered)
+    {
+        o.class("excluded-id-range-exhaustion-regime");
+        return (o, rendered, None);
+    }
     let pair = run_pair(&tree);
     o.evals = 2;
     let in_scope: Vec<String> = rendered.iter().map(|(r, _)| r.clone()).collect();
